@@ -135,10 +135,10 @@ func Msg(m protoreflect.Message) map[string]any {
 	}
 	if md.Name() == "DocumentType" {
 		// proto3 optional fields: presence is explicit, keep the record non-empty
-		out["_"] = "dt"
+		out["tag"] = "dt"
 	}
 	if md.Name() == "Document" {
-		out["_"] = "doc"
+		out["tag"] = "doc"
 	}
 	return out
 }
